@@ -33,6 +33,7 @@ RULE = ('all ordered pairs of the 21 registered smoothers + None x iterations {1
         'Non-trivial: a configuration with two smoothing levels or more; distinct = distinct configuration.')
 RULE += (' '
          'Oracle problems: real CSR, complex CSR, real 2x2 BSR.')
+THOROUGH_ROUNDS = 3
 TRUSTED = ['ast extraction of SYMMETRIC_RELAXATION / KRYLOV_RELAXATION / _setup_call keys from pyamg/relaxation/smoothing.py']
 PARTIAL = ['flag soundness (flag true => adjoint smoother pair) is decided by the oracle per class, not proved',
            'complex Hermitian case: oracle only', 'strict energy contraction (hypothesis of the positive-definiteness theorem): measured by the oracle']
